@@ -21,7 +21,7 @@ GC_EVERY = 50
 
 def configs(tier, seed):
     out = []
-    n = 700 if tier == 'quick' else 12000
+    n = 2500 if tier == 'quick' else 12000
     shards = 1 if tier == 'quick' else 3
     for impl in ('c', 'py'):
         for cname, env in (('default', {}),
